@@ -2379,6 +2379,12 @@ def impl_assembly_rule(syn, prop, rule):
     for frag, nm in fixed.items():
         ok = frag in txt
         r.inst(piece=nm, present=ok)
+        word = re.sub(r"\W.*$", "", nm)
+        if not ok and any(v in spliced and word in init for v, init in lets.items()):
+            # the piece is not written out in the template but spliced in from a value computed with its name
+            # (`let ident_fn = string_fn("ident", ..)`): its text is not read here
+            r.fail(prop, "anchor-missing impl piece %s" % nm, "`%s` is not literal in the impl template; a spliced value is built from `%s`" % (frag, word), fn["file"], e["line"])
+            continue
         if not ok:
             r.fail(prop, "impl-piece-missing %s" % nm, "the emitted impl has no `%s`" % frag, fn["file"], e["line"])
     r.floor = 13
